@@ -99,9 +99,18 @@ def side_case(rng):
     rows, cols, ranks = lib.rand_shape(rng, order, op=op, maxdim=3, maxrank=4)
     cplx = rng.random() < 0.4
     t = gen_tt(rng, rows, cols, ranks, cplx, 'float')
-    if rng.random() < 0.25 and order >= 2:      # rank-deficient core
+    if rng.random() < 0.35 and order >= 2:      # rank-deficient core: a zero / repeated slice at a random position
         i = rng.randrange(order)
-        t.cores[i][..., -1] = t.cores[i][..., 0]
+        ax = rng.choice([0, 3])
+        n = t.cores[i].shape[ax]
+        a_, b_ = rng.randrange(n), rng.randrange(n)
+        idx_a = [slice(None)] * 4
+        idx_b = [slice(None)] * 4
+        idx_a[ax], idx_b[ax] = a_, b_
+        if a_ == b_ or rng.random() < 0.4:
+            t.cores[i][tuple(idx_a)] = 0
+        else:
+            t.cores[i][tuple(idx_b)] = t.cores[i][tuple(idx_a)]
     which = rng.choice(['left', 'right', 'ortho'])
     before = dense(t.cores)
     ranks0 = list(t.ranks)
@@ -161,6 +170,10 @@ def run(ctx):
         except lib.InexactValue:
             ctx.skipped_inexact += 1
             continue
+        except Exception as e:
+            ctx.fail('%s raised %r on a valid input' % (case['which'], e),
+                     {'gen': 'gen_sweep_case', 'case_seed': cs, 'which': case['which'], 'start': case['start']}, tags={'op': case['which'], 'raised': True})
+            continue
         tags = tuple(sorted(set(shape_tags(case['t']) + [case['kind']])))
         ctx.nontriv((case['which'], tags, len(calls) > 0))
         ctx.count('sweep:' + case['which'])
@@ -178,7 +191,10 @@ def run(ctx):
         n_side *= 5
     for k in range(n_side):
         cs = ctx.rng.getrandbits(48)
-        msg, desc = side_case(random.Random(cs))
+        try:
+            msg, desc = side_case(random.Random(cs))
+        except Exception as e:
+            msg, desc = 'raised %r' % (e,), {'which': 'exception', 'case_seed': cs}
         ctx.side_cases += 1
         ctx.evaluations += 1
         if msg:
